@@ -6964,11 +6964,13 @@ def subn(
                                 repl_slot = parent
 
                     elif parenta_cls is BoolOp:  # if BoolOp as element of Boolop then it results simpler to put as slice if same op
-                        if field == 'values' and (a := repl_slot_new.a).__class__ is BoolOp:
+                        if field == 'values' and isinstance(repl_slot_new, fst.FST) and (a := repl_slot_new.a).__class__ is BoolOp:
                             one = a.op.__class__ is not parenta.op.__class__
 
                     elif parenta_cls is MatchClass:
-                        if field == 'patterns' and repl_slot_new.a.__class__ is _pattern_attrlikes:
+                        if (field == 'patterns' and isinstance(repl_slot_new, fst.FST)
+                            and repl_slot_new.a.__class__ is _pattern_attrlikes
+                        ):
                             virt_field = '_attrs'
                             virt_idx = idx
                             one = False
